@@ -4,11 +4,35 @@ Part A (proved + correspondence): the Go authorization logic of the XIBC message
 Part B (exhaustive test, NOT proved): msg.sender checks of the source-less system contracts."""
 import json
 import os
+import threading
 from collections import Counter
 
 import vlib
-from vlib import coq_literal_bytes as cb, coq_bool, coq_list, coq_option
+from vlib import coq_bool, coq_list, coq_option
 
+# byte strings are interned per Coq file (Definition bN := [...]) — keeps the generated files small
+_INTERN = {}
+
+
+def cb(b):
+    if isinstance(b, str):
+        b = b.encode('utf-8')
+    if len(b) == 0:
+        return '[]'
+    n = _INTERN.get(b)
+    if n is None:
+        n = _INTERN[b] = 'b%d' % len(_INTERN)
+    return n
+
+
+def intern_defs(terms_fn):
+    """evaluate terms_fn() with a fresh intern table; returns (definitions text, result)"""
+    _INTERN.clear()
+    res = terms_fn()
+    defs = ''.join('Definition %s : bytes := %s.\n' % (n, vlib.coq_literal_bytes(b)) for b, n in _INTERN.items())
+    return defs, res
+
+_LOCK = threading.Lock()
 HEADER = 'From Teleport Require Import Base.Bytes Base.Outcome Model.Auth Model.AuthCheck.\n'
 SHARD = 12  # histories per Coq file (each has ~40 steps)
 
@@ -83,7 +107,9 @@ def evaluate(workdir, results, tag='cases'):
 
     def one(ix):
         i, sh = ix
-        defs = 'Definition cases : list hist := %s.\n' % coq_list([hist_term(r) for r in sh])
+        with _LOCK:
+            idefs, terms = intern_defs(lambda: [hist_term(r) for r in sh])
+        defs = idefs + 'Definition cases : list hist := %s.\n' % coq_list(terms)
         res = vlib.coq_eval_lists(workdir, '%s_%d.v' % (tag, i), HEADER, defs,
                                   [('M', 'mismatches cases'), ('F', 'monitor_failures cases')])
         m = vlib.parse_nat_tuples(res.get('M'), 3)
